@@ -83,7 +83,12 @@ Nets ==
         Wide == {[dim |-> 2, layers |-> <<CHOOSE x \in Lin23 : TRUE>> \o av \o hd, pre |-> [kind |-> "none"]]
                     : av \in {Relu3, <<ActLayer("relu", 2)>>, <<ActLayer("leaky", 2)>>, <<ActLayer("hard_tanh", 2)>>},
                       hd \in {<<>>, <<[k |-> "argmax"]>>} \cup {<<[k |-> "class_char", c |-> c]>> : c \in 0..2}}
-    IN One \cup Two \cup Twice \cup Wide
+        \* linear layers directly after one another (no activation in between): non-commuting square maps and changing widths
+        LinLin == UNION {{[dim |-> fl[1], layers |-> <<fl[2], l2>> \o tl, pre |-> [kind |-> "none"]]
+                            : l2 \in Lin22 \cup Lin21 \cup Lin23, tl \in {<<>>, <<ActLayer("relu", 0)>>}} : fl \in First}
+                  \cup {[dim |-> fl[1], layers |-> <<fl[2], ActLayer("relu", 0), l2, l3, [k |-> "argmax"]>>, pre |-> [kind |-> "none"]]
+                            : fl \in First, l2 \in {CHOOSE x \in Lin23 : TRUE}, l3 \in {W(<<<<1, 0, -1>>, <<0, 2, 1>>>>, <<0, 1>>)}}
+    IN One \cup Two \cup Twice \cup Wide \cup LinLin
 
 \* ---------------------------------------------------------------- C18: builder calls
 Call(nm, args) == [call |-> nm] @@ args
